@@ -1,8 +1,312 @@
-/- Driver handlers for area `event` (stub: replace `handle`). -/
+/- Driver handlers for area `event` (C03, C04) and the PDU ops of area `redact` (C05). -/
 import VDriver.Util
+import VModel.EventParse
+import VModel.EventSpec
 namespace V.Driver.EventOps
-open V V.Driver
+open V V.Json V.GoJson V.Driver V.Redact V.EventParse
 
-def handle (_op : String) (_args : Array String) : Option String := none
+def H : Bytes → Bytes := Hash.sha256
+
+def showErrE : Err → String
+  | .badJSON => "err:badjson"
+  | .other w =>
+    if w.startsWith "unmodelled" then "skip:" ++ w
+    else if w == "toolarge" then "err:toolarge"
+    else if w == "toolarge-persistable" then "err:toolarge-persistable"
+    else if w == "invalid-json" then "err:invalid-json"
+    else "err:other"
+  | .panic s => "panic:" ++ s
+
+def showOpt : Option Bytes → String
+  | none => "~"
+  | some b => hex b
+
+def showIDs : Option (List Bytes) → String
+  | none => "~"
+  | some l => "[" ++ ",".intercalate (l.map hex) ++ "]"
+
+/-- one accessor that may panic: in guarded mode a panic is shown in place -/
+def showAcc (guarded : Bool) (x : Except Err String) : Except Err String :=
+  match x with
+  | .ok s => .ok s
+  | .error (.panic site) => if guarded then .ok "PANIC" else .error (.panic site)
+  | .error e => .error e
+
+/-- The accessor tuple of an event, as the harness prints it. -/
+def showPDU (guarded : Bool) (e : PDU) : String :=
+  let fields : Except Err (List String) := do
+    let eid ← showAcc guarded ((eventID H e).map hex)
+    let rid ← showAcc guarded ((roomID H e).map hex)
+    let auth ← showAcc guarded ((authEventIDs e).map showIDs)
+    pure ["eid=" ++ eid, "rid=" ++ rid, "type=" ++ hex e.f.type, "sk=" ++ showOpt e.f.stateKey,
+          "sender=" ++ hex e.f.sender, "redacted=" ++ (if e.redacted then "1" else "0"),
+          "depth=" ++ toString e.f.depth, "ts=" ++ toString e.f.originServerTS,
+          "prev=" ++ showIDs (prevEventIDs e), "auth=" ++ auth,
+          "content=" ++ (match e.f.content with
+            | none => "~"
+            | some v => hex (encodeCanon v)),
+          "unsigned=" ++ (match e.f.unsigned with
+            | none => "~"
+            | some v => hex (encodeCanon v)),
+          "canon=" ++ (if e.json == encodeCanon (.obj e.obj) then "1" else "0"),
+          "json=" ++ hex (encodeCanon (.obj e.obj))]
+  match fields with
+  | .ok fs => "ok:" ++ "|".intercalate fs
+  | .error err => showErrE err
+
+def showParse (guarded : Bool) (withLen : Bool) : Except Err PDU → String
+  | .ok e => showPDU guarded e ++ (if withLen then "|len=" ++ toString e.json.length else "")
+  | .error err => showErrE err
+
+/-- texts the event models do not cover: ill-formed Unicode or duplicate keys anywhere (the
+    canonical form of such texts is outside C01's specification) -/
+def textSkip (t : Bytes) : Option String :=
+  match parse t with
+  | none => none
+  | some p =>
+    if !p.wellFormed then some "skip:ill-formed unicode"
+    else if !p.toJVal.noDupKeys then some "skip:duplicate keys"
+    else none
+
+def flag (b : Bool) : String := if b then "1" else "0"
+
+/-- the specification stream of `parse_untrusted` (C04): the expected tuple in the printer's format -/
+def untrustedSpec (ver t : Bytes) (modelOutcome : String) : String :=
+  if !modelOutcome.startsWith "ok:" then "unspecified:input rejected or outside the model (compared with the model only)" else
+  match EventSpec.untrustedExpect H ver t with
+  | .error w => "unspecified:" ++ w
+  | .ok x =>
+    let js := encodeCanon x.json
+    "ok:" ++ "|".intercalate ["eid=" ++ hex x.eid, "rid=" ++ hex x.rid, "type=" ++ hex x.type, "sk=" ++ showOpt x.sk,
+      "sender=" ++ hex x.sender, "redacted=" ++ flag x.redacted, "depth=" ++ toString x.depth, "ts=" ++ toString x.ts,
+      "prev=" ++ showIDs x.prev, "auth=" ++ showIDs x.auth,
+      "content=" ++ (match x.content with
+        | none => "~"
+        | some v => hex (encodeCanon v)),
+      "unsigned=" ++ (match x.unsigned with
+        | none => "~"
+        | some v => hex (encodeCanon v)),
+      "canon=1", "json=" ++ hex js, "len=" ++ toString js.length]
+
+/-- `redact.pdu`: build from trusted JSON with a given ID, Redact(), Redact() again -/
+def showRedactPDU (ver id js : Bytes) : String :=
+  match textSkip js with
+  | some s => s
+  | none =>
+    match parseTrustedWithID ver id false js with
+    | .error err => showErrE err
+    | .ok e =>
+      let part (err : Err) : String := match err with
+        | .panic _ => "PANIC"
+        | x => showErrE x
+      match redact e with
+      | .error err => if (part err).startsWith "skip" then part err else showPDU true e ++ "##" ++ part err
+      | .ok e1 =>
+        match redact e1 with
+        | .error err => if (part err).startsWith "skip" then part err else showPDU true e ++ "##" ++ showPDU true e1 ++ "##" ++ part err
+        | .ok e2 => showPDU true e ++ "##" ++ showPDU true e1 ++ "##idem=" ++ flag (showPDU true e2 == showPDU true e1)
+
+/-! ### property ops: verdict vectors (the specification stream is the all-true vector) -/
+
+def accStr (x : Except Err String) : String :=
+  match x with
+  | .ok s => s
+  | .error (.panic _) => "PANIC"
+  | .error _ => "UNMODELLED"
+
+/-- the fields C03 says survive a round trip -/
+def coreTuple (e : PDU) : List String :=
+  [accStr ((eventID H e).map hex), hex e.f.type, hex e.f.sender, accStr ((roomID H e).map hex), showOpt e.f.stateKey,
+   (match e.f.content with
+    | none => "~"
+    | some v => hex (encodeCanon v)),
+   toString e.f.depth, toString e.f.originServerTS, showIDs (prevEventIDs e), accStr ((authEventIDs e).map showIDs)]
+
+def idsTuple (e : PDU) : List String :=
+  [hex e.f.type, hex e.f.sender, accStr ((roomID H e).map hex), showOpt e.f.stateKey]
+
+def anyUnmodelled (xs : List String) : Bool := xs.contains "UNMODELLED"
+
+def idFormatOf (ver : Bytes) : Nat := ((rowOf ver).map (·.eventIDFormat)).getD 0
+
+/-- `redact.pdu_props` -/
+def showPDUProps (ver id js : Bytes) : String :=
+  match textSkip js with
+  | some s => s
+  | none =>
+    match parseTrustedWithID ver id false js with
+    | .error (.other w) => if w.startsWith "unmodelled" then "skip:" ++ w else "err:construct"
+    | .error _ => "err:construct"
+    | .ok e =>
+      match redactJSON ver (.obj e.obj), redact e with
+      | .ok want, .ok e1 =>
+        match redact e1 with
+        | .ok e2 =>
+          let sigSame := match signingPayload ver (.obj e.obj), signingPayload ver (.obj e1.obj),
+                               signaturesOf ver (.obj e.obj), signaturesOf ver (.obj e1.obj) with
+            | .ok p0, .ok p1, .ok s0, .ok s1 => p0 == p1 && (s0.map encodeCanon) == (s1.map encodeCanon)
+            | _, _, _, _ => false
+          let m := "ids=" ++ flag (idsTuple e == idsTuple e1) ++
+            "|eid=" ++ (if idFormatOf ver == 1 then "na" else flag (accStr ((eventID H e2).map hex) == accStr ((eventID H e).map hex))) ++
+            "|red=" ++ flag e2.redacted ++ "|idem=" ++ flag (showPDU true e2 == showPDU true e1) ++
+            "|json=" ++ flag (e1.json == encodeCanon want) ++ "|sig=" ++ flag sigSame
+          if anyUnmodelled (idsTuple e ++ idsTuple e1) then "skip:unmodelled accessor" else
+          m ++ "\t" ++ "ids=1|eid=" ++ (if idFormatOf ver == 1 then "na" else "1") ++ "|red=1|idem=1|json=1|sig=1"
+        | .error err => showErrE err
+      | .error (.other w), _ => if w.startsWith "unmodelled" then "skip:" ++ w else "err:redact"
+      | _, .error err => showErrE err
+      | .error err, _ => showErrE err
+
+def isB64Char (url : Bool) (c : UInt8) : Bool :=
+  (0x41 ≤ c && c ≤ 0x5A) || (0x61 ≤ c && c ≤ 0x7A) || (0x30 ≤ c && c ≤ 0x39) ||
+  (if url then c == 0x2D || c == 0x5F else c == 0x2B || c == 0x2F)
+
+def idAlphabetOK (url : Bool) (id : Bytes) : Bool :=
+  match id with
+  | 0x24 :: rest => rest.length == 43 && rest.all (isB64Char url)
+  | _ => false
+
+def roundtripOp (ver js : Bytes) : String :=
+  match textSkip js with
+  | some s => s
+  | none =>
+    match parseTrusted H ver false js with
+    | .error (.other w) => if w.startsWith "unmodelled" then "skip:" ++ w else "err:construct"
+    | .error _ => "err:construct"
+    | .ok ref =>
+      let want := coreTuple ref
+      let same (r : Except Err PDU) : String := match r with
+        | .ok p => flag (coreTuple p == want && !p.redacted)
+        | .error _ => "0"
+      let unm (r : Except Err PDU) : Bool := match r with
+        | .error (.other w) => w.startsWith "unmodelled"
+        | _ => false
+      let pu := parseUntrusted H ver js
+      let rid := accStr ((eventID H ref).map (fun x => bytesStr x))
+      let pt := match eventID H ref with
+        | .ok id => parseTrustedWithID ver id false js
+        | .error x => .error x
+      let ph : Except Err PDU := match toHeadered H ref with
+        | .ok hj => parseHeadered false (encodeCanon hj)
+        | .error x => .error x
+      if unm pu || unm pt || unm ph || anyUnmodelled want || rid == "UNMODELLED" then "skip:unmodelled" else
+      let domainless := ((rowOf ver).map (·.domainlessRoomID)).getD false
+      let v12 := if !domainless then "na"
+        else if isCreate ref then
+          (match roomID H ref, eventID H ref with
+           | .ok r, .ok i => flag (r == 0x21 :: i.drop 1)
+           | _, _ => "0")
+        else
+          (match authEventIDs ref, EventSpec.get ref.obj b!"room_id" with
+           | .ok (some (a :: _)), some (.str room) => flag (!room.isEmpty && a == 0x24 :: room.drop 1)
+           | _, _ => "0")
+      let m := "u=" ++ same pu ++ "|t=" ++ same pt ++ "|h=" ++ same ph ++ "|nr=" ++ flag (!ref.redacted) ++
+        "|cf=" ++ flag (match checkFields ref with
+          | .ok () => true
+          | .error _ => false) ++ "|v12=" ++ v12
+      m ++ "\t" ++ "u=1|t=1|h=1|nr=1|cf=1|v12=" ++ (if domainless then "1" else "na")
+
+def idpropsOp (ver js u name kid : Bytes) : String :=
+  match textSkip js, parse u with
+  | some s, _ => s
+  | none, none => "bad-op"
+  | none, some pu =>
+    match parseTrusted H ver false js with
+    | .error (.other w) => if w.startsWith "unmodelled" then "skip:" ++ w else "err:construct"
+    | .error _ => "err:construct"
+    | .ok e =>
+      let id0 := accStr ((eventID H e).map hex)
+      let idOf (r : Except Err PDU) : String := match r with
+        | .ok p => accStr ((eventID H p).map hex)
+        | .error (.other w) => if w.startsWith "unmodelled" then "UNMODELLED" else "ERR"
+        | .error _ => "ERR"
+      let su := idOf (setUnsigned e pu.toJVal)
+      let o1 := setFirst b!"signatures" (.obj [(b!"elsewhere", .obj [(b!"ed25519:z", .str b!"c2ln")])]) e.obj
+      let o2 := deleteFirst b!"signatures" e.obj
+      let se1 := idOf (parseTrusted H ver false (encodeCanon (.obj o1)))
+      let se2 := idOf (parseTrusted H ver false (encodeCanon (.obj o2)))
+      let sg := idOf (signWith e name kid b!"c2ln")
+      let rd := idOf (redact e)
+      if [id0, su, se1, se2, sg, rd].contains "UNMODELLED" then "skip:unmodelled" else
+      let fmt := idFormatOf ver
+      let al := if fmt == 2 then (match eventID H e with
+          | .ok i => flag (idAlphabetOK false i)
+          | _ => "0")
+        else if fmt == 3 then (match eventID H e with
+          | .ok i => flag (idAlphabetOK true i)
+          | _ => "0")
+        else "na"
+      let m := "su=" ++ flag (su == id0) ++ "|se=" ++ flag (se1 == id0 && se2 == id0) ++ "|sg=" ++ flag (sg == id0) ++
+        "|rd=" ++ flag (rd == id0) ++ "|al=" ++ al
+      if fmt == 1 then m ++ "\tunspecified:event IDs of room versions 1 and 2 are not hashes"
+      else m ++ "\tsu=1|se=1|sg=1|rd=1|al=1"
+
+def iddiffOp (ver js1 js2 : Bytes) : String :=
+  match textSkip js1, textSkip js2 with
+  | some s, _ => s
+  | _, some s => s
+  | none, none =>
+    match parseTrusted H ver false js1, parseTrusted H ver false js2 with
+    | .ok a, .ok b =>
+      let ia := accStr ((eventID H a).map hex)
+      let ib := accStr ((eventID H b).map hex)
+      if ia == "UNMODELLED" || ib == "UNMODELLED" then "skip:unmodelled" else
+      let m := "diff=" ++ flag (ia != ib)
+      if idFormatOf ver == 1 then m ++ "\tunspecified:event IDs of room versions 1 and 2 are not hashes" else m ++ "\tdiff=1"
+    | .error (.other w), _ => if w.startsWith "unmodelled" then "skip:" ++ w else "err:construct"
+    | _, .error (.other w) => if w.startsWith "unmodelled" then "skip:" ++ w else "err:construct"
+    | _, _ => "err:construct"
+
+/-- ops (versions plain, texts hex-encoded):
+    parse_untrusted <ver> <text>              NewEventFromUntrustedJSON          (+ spec: C04)
+    parse_trusted <ver> <redacted> <text>     NewEventFromTrustedJSON
+    parse_trusted_id <ver> <id> <redacted> <text>   NewEventFromTrustedJSONWithEventID
+    headered <redacted> <text>                NewEventFromHeaderedJSON
+-/
+def handle (op : String) (args : Array String) : Option String :=
+  match op, args.toList with
+  | "parse_untrusted", [verh, th] =>
+    match some (strBytes verh), unhex th with
+    | some ver, some t =>
+      match textSkip t with
+      | some s => some s
+      | none =>
+        let m := showParse false true (parseUntrusted H ver t)
+        some (m ++ "\t" ++ untrustedSpec ver t m)
+    | _, _ => some "bad-op"
+  | "parse_trusted", [verh, red, th] =>
+    match some (strBytes verh), unhex th with
+    | some ver, some t =>
+      match textSkip t with
+      | some s => some s
+      | none => some (showParse true true (parseTrusted H ver (red == "1") t))
+    | _, _ => some "bad-op"
+  | "parse_trusted_id", [verh, idh, red, th] =>
+    match some (strBytes verh), unhex idh, unhex th with
+    | some ver, some id, some t =>
+      match textSkip t with
+      | some s => some s
+      | none => some (showParse true true (parseTrustedWithID ver id (red == "1") t))
+    | _, _, _ => some "bad-op"
+  | "roundtrip", [verh, th] =>
+    match some (strBytes verh), unhex th with
+    | some ver, some t => some (roundtripOp ver t)
+    | _, _ => some "bad-op"
+  | "idprops", [verh, th, uh, nameh, kidh, _seed] =>
+    match some (strBytes verh), unhex th, unhex uh, unhex nameh, unhex kidh with
+    | some ver, some t, some u, some name, some kid => some (idpropsOp ver t u name kid)
+    | _, _, _, _, _ => some "bad-op"
+  | "iddiff", [verh, t1h, t2h] =>
+    match some (strBytes verh), unhex t1h, unhex t2h with
+    | some ver, some t1, some t2 => some (iddiffOp ver t1 t2)
+    | _, _, _ => some "bad-op"
+  | "headered", [red, th] =>
+    match unhex th with
+    | some t =>
+      match textSkip t with
+      | some s => some s
+      | none => some (showParse true false (parseHeadered (red == "1") t))
+    | _ => some "bad-op"
+  | _, _ => none
 
 end V.Driver.EventOps
